@@ -142,7 +142,8 @@ async def prog_response(flavor, p):
 async def prog_fault(flavor, p):
     from ..scenarios import run_injected, post_checks
     inject = ("fault", p["op"], p["fault"]) if p.get("fault") else None
-    res = await run_injected(flavor, p["ctype"], p["shape"], "alone", inject, sc_kw={"timeouts": {"connect": 11.0, "read": 13.0, "write": 17.0, "pool": 19.0}})
+    res = await run_injected(flavor, p["ctype"], p["shape"], "alone", inject, sc_kw={"timeouts": {"connect": 11.0, "read": 13.0, "write": 17.0, "pool": 19.0},
+                                                                                     "retries": p.get("retries", 0)})
     pool = res["sc"].pool
     state = [norm_text(repr(pool)), [norm_text(c.info()) for c in pool.connections]]
     facts = await post_checks(res, flavor)
@@ -463,6 +464,10 @@ def plan(tier, seed):
                 progs.append(["fault", {"ctype": ctype, "shape": shape, "op": r.randrange(0, 14),
                                         "fault": r.choice(["ConnectError", "ConnectTimeout", "ReadError", "ReadTimeout", "EOF",
                                                            "WriteError", "WriteTimeout", "PartialWrite"])}])
+    for ctype in TYPES:
+        # establishment faults with retries configured (the retry path, with its back-off sleep and trace events)
+        for op, fault, retries in ((0, "ConnectError", 1), (0, "ConnectTimeout", 2), (1, "ConnectError", 1), (1, "ReadError", 2), (2, "EOF", 1)):
+            progs.append(["fault", {"ctype": ctype, "shape": "get", "op": op, "fault": fault, "retries": retries}])
     for i in range(60 if q else 500):
         cfg, steps = c09.gen_history(r)
         progs.append(["history", {"cfg": cfg, "steps": steps}])
